@@ -171,7 +171,7 @@ func genC13() {
 	const pth = "pkg/build/paths.go"
 	epd := findFunc(pth, "", "ensureParentDirectory")
 	num("mut_parent_perm", c13CallArg(epd, pth+":ensureParentDirectory", "MkdirAll", 1), "mode of missing parents of a mutated path")
-	// mutateEmptyFile: target := mut.Path (finding C13-F6) or filepath.Clean(mut.Path) (fixes/C13-F6.patch)
+	// mutateEmptyFile: target := filepath.Clean(mut.Path) (fix 10a6051) or mut.Path (was finding C13-F6)
 	if tgt := c13FindDefine(findFunc(pth, "", "mutateEmptyFile"), "target"); tgt == nil {
 		fail("%s: mutateEmptyFile has no target := ...", pth)
 	} else {
@@ -260,7 +260,7 @@ func genC13() {
 		}
 	}
 	// which characters Validate refuses in which account field: the strings.ContainsAny(<expr>, <literal>)
-	// tests inside Validate (none today: finding C13-F5; fixes/C13-F5.patch adds them)
+	// tests inside Validate (fix 3dfd539, was finding C13-F5; none before)
 	if vf != nil {
 		var items []string
 		ast.Inspect(vf, func(n ast.Node) bool {
